@@ -25,6 +25,8 @@ def run(run, model):
     run.do(c09.dispatch_table, model, "C07.default-error")
     run.do(msg.text_and_assembly, model)
     run.do(msg.decorator_regex, model)
+    run.do(msg.scan_bounds, model)
+    run.do(rec.lookup, model, "C07.lookup")
     run.do(effects.handlers_rule, model, "C07.no-swallow")
     from . import fwd
     run.do(fwd.forwarding, model, "C07.forwarded", ("condition", "description", "location", "error"))
